@@ -27,16 +27,25 @@ from ..cfg import facts_at
 EXPLANATION = __doc__
 PARSER = "openpectus.lang.model.parser"
 JUSTIFIED = {
-    ("PcodeParser._parse_line", "line.index('#')"): "dominated by line_stripped.startswith('#'), so '#' occurs in line",
-    ("PcodeParser._parse_line", "float(Grammar.instruction_line_pattern.match(line).groupdict().get('threshold'))"): "threshold comes from group `threshold` = \\d+(\\.\\d+)? (checked against the regex AST), a float literal",
-    ("MethodLineIdGenerator.create_id", "self.method.lines[node.position.line]"): "position.line is the enumerate index of method.lines assigned in parse_method/_parse_line",
-    ("PcodeParser._parse_tag_operator_value", "float(node.tag_operator_value.tag_value or '')"): "tag_value is group `float` of condition_rhs patterns (float syntax)",
+    ("PcodeParser._parse_line", "<arg0>.index('#')"): "dominated by line_stripped.startswith('#'), so '#' occurs in line",
+    ("PcodeParser._parse_line", "float(Grammar.instruction_line_pattern.match(<arg0>).groupdict().get('threshold'))"): "threshold comes from group `threshold` = \\d+(\\.\\d+)? (checked against the regex AST), a float literal",
+    ("MethodLineIdGenerator.create_id", "self.method.lines[<arg0>.position.line]"): "position.line is the enumerate index of method.lines assigned in parse_method/_parse_line",
+    ("PcodeParser._parse_tag_operator_value", "float(<arg0>.tag_operator_value.tag_value or '')"): "tag_value is group `float` of condition_rhs patterns (float syntax)",
 }
 
 
 def _canon(expr, f, depth: int = 3) -> str:
+    import copy
     from ..util import canon_text
-    return canon_text(expr, f, depth)
+    # keys do not depend on how parameters are spelled: the i-th parameter (after self) is written <argi>
+    params = [a.arg for a in f.node.args.posonlyargs + f.node.args.args if a.arg not in ("self", "cls")]
+    e = copy.deepcopy(expr)
+    txt = canon_text(e, f, depth)
+    if params:
+        import re
+        for i, par in enumerate(params):
+            txt = re.sub(rf"(?<![\w.]){re.escape(par)}\b", f"<arg{i}>", txt)
+    return txt
 
 
 def _acyclic_paths(g, start_edges, end_id, limit=4000):
